@@ -173,6 +173,10 @@ class _NullFlow(object):
                 continue
             if pk == 'ReturnStmt':
                 self.returns.append((p, k, state[k]))
+                # the object leaves with its fields: a field that still may be NULL was never tested
+                for k2 in sorted(state):
+                    if state[k2] == M and (k2.startswith(k + '->') or k2.startswith(k + '.')):
+                        self.returns.append((p, k2, M))
                 continue
             if pk == 'CallExpr':
                 cn = callee_name(p)
